@@ -126,9 +126,15 @@ def run(case, ctx):
             others = [h for h in groups if h is not g and set(h) & set(g)]
             if len(g) == 2 and not others:
                 a, b = g
-                sol = any(not (la & lb) for la, _ in cand[a] for lb, _ in cand[b])
+                sols = [(la, lb) for la, _ in cand[a] for lb, _ in cand[b] if not (la & lb)]
+                sol = bool(sols)
+                links_ = case['truth']['links']
+                # every solution routes the two requests over two parallel links between the same two sites: the recorded
+                # limitation of reversed_oms (opposite directions are paired by end points only)
+                needs_parallel = sol and all(any(set(links_[i]) == set(links_[j]) for i in la for j in lb) for la, lb in sols)
                 if sol and len(groups) == 1:
-                    ctx.violation('disjunction-error-although-solution-exists',
+                    ctx.violation('disjunction-error-although-solution-exists' +
+                                  (':every-solution-uses-two-parallel-links' if needs_parallel else ''),
                                   f'requests {a},{b}: R{case["requests"][a]["src"]}->R{case["requests"][a]["dst"]} and '
                                   f'R{case["requests"][b]["src"]}->R{case["requests"][b]["dst"]} include {items[a]} / {items[b]}')
                 interesting = interesting or not sol
